@@ -340,6 +340,8 @@ Fixpoint app_at {A} (l : list (list A)) (i : nat) (x : list A) : list (list A) :
 Definition nb_of (c : chanp) : Z :=
   match off_eligible c with Some (pj, _, _) => m_rows pj | None => 0 end.
 
+Definition dflt_chan : chanp := mkchanp 0 [] 0 0 0 0 0 0 0 0 [] None.
+
 (* evolution of the checker state (START counts when it returned nil) *)
 Definition sstep (cs : list chanp) (st : sst) (o : bop) (b : bobs) : sst :=
   match o, b with
@@ -350,7 +352,7 @@ Definition sstep (cs : list chanp) (st : sst) (o : bop) (b : bobs) : sst :=
       then mksst true false (s_t22 st) (s_t3 st) (s_toff st)
                  (app_at (s_acc st) (Z.to_nat ch) rs)
                  (app_at (s_accoff st) (Z.to_nat ch)
-                         (off_prefix (nb_of (nth (Z.to_nat ch) cs (mkchanp 0 [] 0 0 0 0 0 0 0 0 [] None))) rs))
+                         (off_prefix (nb_of (nth (Z.to_nat ch) cs dflt_chan)) rs))
       else st
   | BPause, _ => mksst (s_active st) true (s_t22 st) (s_t3 st) (s_toff st) (s_acc st) (s_accoff st)
   | BUnpause, _ => mksst (s_active st) false (s_t22 st) (s_t3 st) (s_toff st) (s_acc st) (s_accoff st)
@@ -427,3 +429,35 @@ Definition rec3_fits (r : rec) : Prop :=
 Definition recoff_fits (nb : Z) (r : rec) : Prop :=
   zlen (r_data r) < 2 ^ 31 /\ in_i32 (r_pre r) /\ in_i64 (r_frame r) /\ in_i64 (r_ns r) /\
   in_u32 (r_mean r) /\ in_u32 (r_delta r) /\ in_u32 (r_resid r) /\ Forall in_u32 (r_coefs r) /\ zlen (r_coefs r) = nb.
+
+(* a published record whose fields fit the three layouts (the premise "within field ranges") *)
+Definition pubrec_fits (sp : srcp) (c : chanp) (r : rec) : Prop :=
+  in_i64 (r_frame r * sp_sfdiv sp + cp_sfoff c) /\ in_i64 (r_frame r) /\ in_i64 (r_ns r) /\
+  in_i32 (r_pre r) /\ in_i32 (r_pre r + 1) /\ Forall in_u16 (r_data r) /\ zlen (r_data r) < 2 ^ 31 /\
+  in_u32 (r_mean r) /\ in_u32 (r_delta r) /\ in_u32 (r_resid r) /\ Forall in_u32 (r_coefs r).
+
+(* matrices whose Data slice has rows*cols entries, each a 64-bit pattern *)
+Definition matrix_wf (m : matrix) : Prop :=
+  0 <= m_rows m /\ 0 <= m_cols m /\ zlen (m_bits m) = m_rows m * m_cols m /\ Forall in_u64 (m_bits m).
+
+(* a prepared source: at least one channel, the oracles (Go's 1.0/SampleRate and its %e rendering) are what
+   they claim to be, matrices are well formed *)
+Definition cfg_wf (sp : srcp) (cs : list chanp) : Prop :=
+  cs <> [] /\ 0 <= sp_nsamp sp /\
+  dec7_near (sp_tbn sp) (sp_tbd sp) (sp_tbm sp) (sp_tbe sp) = true /\
+  f64_near (sp_tbn sp) (sp_tbd sp) (sp_tb64 sp) = true /\
+  (forall c pj bs desc, In c cs -> cp_proj c = Some (pj, bs, desc) -> matrix_wf pj /\ matrix_wf bs).
+
+(* every publish/flush addresses an existing channel and carries records within field ranges *)
+Definition op_wf (sp : srcp) (cs : list chanp) (o : bop) : Prop :=
+  match o with
+  | BPub ch rs => 0 <= ch < zlen cs /\ Forall (pubrec_fits sp (nth (Z.to_nat ch) cs dflt_chan)) rs
+  | BFlush ch => 0 <= ch < zlen cs
+  | _ => True
+  end.
+
+(* four lists related element by element (channels, their two record lists, their publishers/files) *)
+Inductive all4 {A B C D} (R : A -> B -> C -> D -> Prop) : list A -> list B -> list C -> list D -> Prop :=
+| all4_nil : all4 R [] [] [] []
+| all4_cons a b c d la lb lc ld :
+    R a b c d -> all4 R la lb lc ld -> all4 R (a :: la) (b :: lb) (c :: lc) (d :: ld).
